@@ -16,7 +16,7 @@ from . import rewrite as RW
 
 NAME = "multifile"
 
-MENU = ["int", "hasrepr", "external", "listfix", "update", "ok", "longlist"]
+MENU = ["int", "hasrepr", "external", "listfix", "update", "ok", "longlist", "in_trailing", "dict_trailing"]
 
 
 def gen(rng, tier, shape=None):
@@ -24,13 +24,19 @@ def gen(rng, tier, shape=None):
     for _ in range(rng.randint(2, 3)):
         files.append({"stmts": [rng.choice(MENU) for _ in range(rng.randint(1, 2))], "docstring": rng.random() < 0.3,
                       "future": rng.random() < 0.3, "has_import_already": rng.random() < 0.15})
-    flags = rng.choice([["create"], ["create", "fix"], ["create", "fix", "update"], ["fix"], ["create", "fix", "trim", "update"]])
+    flags = rng.choice([["create"], ["create", "fix"], ["create", "fix", "update"], ["fix"], ["create", "fix", "trim", "update"], ["fix", "trim"], ["create", "trim"]])
+    force_orders = False
+    if rng.random() < 0.25:
+        # two categories that edit the same display, approved together and one at a time
+        files[0]["stmts"][0] = rng.choice(["in_trailing", "dict_trailing"])
+        flags = rng.choice([["fix", "trim"], ["create", "trim"], ["create", "fix", "trim"], ["create", "fix", "trim", "update"]])
+        force_orders = True
     ll = rng.choice([None, None, 40, 60])
     for f in files:
         f["clean"] = ll is not None and rng.random() < 0.6       # formatter-clean under the project's black options
         f["bom"] = rng.random() < 0.12                           # the file starts with a UTF-8 byte order mark
     return {"files": files, "flags": flags, "outside": rng.random() < 0.3,      # outside: pytest is started from another directory
-            "line_length": ll}
+            "line_length": ll, "orders": len(flags) >= 2 and (force_orders or rng.random() < 0.4)}     # orders: also approve the categories one at a time
 
 
 def file_src(f, idx):
@@ -52,6 +58,9 @@ def file_src(f, idx):
                   "listfix": "    assert [1, 2, 3] == snapshot([1, 0+2])",
                   "update": "    assert 5 == snapshot(0+5)",
                   "longlist": f"    assert [1111111111, 2222222222, 33333333{idx}{k}] == snapshot()",
+                  # two categories edit one display that ends in a trailing comma / line break (trim removes the last element, fix appends)
+                  "in_trailing": "    for v in (1, 5):\n        assert v in snapshot(\n            [\n                1,\n                2,\n            ]\n        )",
+                  "dict_trailing": "    s = snapshot({\"a\": 1, \"b\": 2,})\n    assert s[\"a\"] == 1\n    assert s[\"c\"] == 3",
                   "ok": "    assert 7 == snapshot(7)"}[st])
         L.append("")
     return "\n".join(L)
@@ -90,8 +99,24 @@ def run_impl(case):
         if r.get("dir"):
             import pathlib
             common.rmtree(pathlib.Path(r["dir"]).parent if sub else pathlib.Path(r["dir"]))
+    seq = None
+    if case.get("orders") and not ("INTERNALERROR" in r["stdout"]):
+        # C09: the categories approved one at a time (in the given order and in the reverse order) end in the same programs
+        seq = {}
+        for order in (list(case["flags"]), list(reversed(case["flags"]))):
+            cur = dict(files)
+            err = None
+            for c in order:
+                rs = impl_pytest.run_session(cur, ["--inline-snapshot=" + c], {}, pyproject=(f"[tool.black]\nline-length = {ll}\n" if ll else ""), cwd_sub=sub)
+                if "INTERNALERROR" in rs["stdout"]:
+                    err = rs["stdout"][-300:]
+                    break
+                keep_store = {k: v for k, v in rs["files"].items() if k.startswith(".inline-snapshot/")}
+                cur = {n: rs["files"].get(n, b"").decode("utf-8", "replace") for n in files}
+                cur.update(keep_store)
+            seq[",".join(order)] = {"err": err, "files": {n: cur.get(n) for n in files}}
     internal = "INTERNALERROR" in r["stdout"]
-    return {"second": second, "rc": r["rc"], "traceback": "Traceback" in r["stderr"] or "Error" in r["stderr"][-400:] or internal,
+    return {"seq": seq, "second": second, "rc": r["rc"], "traceback": "Traceback" in r["stderr"] or "Error" in r["stderr"][-400:] or internal,
             "stderr": (r["stdout"][-700:] if internal else r["stderr"][-500:]),
             "files": {n: {"old": files[n], "new": r["files"].get(n, b"").decode("utf-8", "replace")} for n in files}}
 
@@ -104,6 +129,22 @@ def oracle(case, obs):
     fails = []
     if obs["traceback"]:
         fails.append(("C18", "finish_total", f"flags {case['flags']}: {obs['stderr'][-300:]}"))
+    if obs.get("seq"):
+        def dump(t):
+            try:
+                return ast.dump(ast.parse((t or "").lstrip("\ufeff")))
+            except SyntaxError as e:
+                return "syntax error " + str(e)
+        for order, o in obs["seq"].items():
+            if o["err"]:
+                fails.append(("C18", "finish_total", f"approving {order} one at a time: {o['err']}"))
+                continue
+            for name, fo in obs["files"].items():
+                if dump(o["files"].get(name)) != dump(fo["new"]):
+                    tail = lambda t: [l.strip() for l in (t or "").splitlines() if "snapshot" in l and "import" not in l][:3]
+                    fails.append(("C09", "order_independent", f"{name}: approving {order} one at a time gives {tail(o['files'].get(name))}, "
+                                  f"together ({','.join(case['flags'])}) {tail(fo['new'])}" + (" [the run that approved everything together stopped with an internal error]" if obs["traceback"] else "")))
+                    break
     sec = obs.get("second")
     if sec and not obs["traceback"] and sec["rc"] != 0:
         bad = sorted(k for k, v in sec["outcomes"].items() if v in ("failed", "error"))
